@@ -249,24 +249,26 @@ vf::Blk* do_alloc(State& S, int force_ep, size_t force_size) {
   void* p = nullptr;
   bool zero = ep_is_zero(ep);
   bool is_str = false;
+  // a NULL pointer makes the realloc family behave as the corresponding allocation (incl. zero initialisation): one call in 8 goes that way
+  const bool via_null = (force_ep < 0 && chance(S, 1, 8));
   vf_cur_what = ep_names[ep];
   switch (ep) {
-    case EP_malloc: p = mi_malloc(n); break;
-    case EP_zalloc: p = mi_zalloc(n); break;
+    case EP_malloc: if (via_null) { S.n_alloc_via_realloc_null++; switch (below(S, 3)) { case 0: p = mi_realloc(nullptr, n); break; case 1: p = mi_reallocf(nullptr, n); break; default: p = mi_reallocn(nullptr, 1, n); break; } } else p = mi_malloc(n); break;
+    case EP_zalloc: if (via_null) { S.n_alloc_via_realloc_null++; p = (chance(S, 1, 2) ? mi_rezalloc(nullptr, n) : mi_recalloc(nullptr, 1, n)); } else p = mi_zalloc(n); break;
     case EP_calloc: split_count(S, n, &cnt, &sz); n = cnt * sz; p = mi_calloc(cnt, sz); break;
     case EP_mallocn: split_count(S, n, &cnt, &sz); n = cnt * sz; p = mi_mallocn(cnt, sz); break;
     case EP_malloc_small: if (n > MI_SMALL_SIZE_MAX) n = (size_t)below(S, MI_SMALL_SIZE_MAX + 1); p = mi_malloc_small(n); break;
     case EP_zalloc_small: if (n > MI_SMALL_SIZE_MAX) n = (size_t)below(S, MI_SMALL_SIZE_MAX + 1); p = mi_zalloc_small(n); break;
-    case EP_heap_malloc: hi = pick_heap(S); h = S.heaps[hi].h; p = mi_heap_malloc(h, n); break;
-    case EP_heap_zalloc: hi = pick_heap(S); h = S.heaps[hi].h; p = mi_heap_zalloc(h, n); break;
+    case EP_heap_malloc: hi = pick_heap(S); h = S.heaps[hi].h; if (via_null) { S.n_alloc_via_realloc_null++; p = mi_heap_realloc(h, nullptr, n); } else p = mi_heap_malloc(h, n); break;
+    case EP_heap_zalloc: hi = pick_heap(S); h = S.heaps[hi].h; if (via_null) { S.n_alloc_via_realloc_null++; p = (chance(S, 1, 2) ? mi_heap_rezalloc(h, nullptr, n) : mi_heap_recalloc(h, nullptr, 1, n)); } else p = mi_heap_zalloc(h, n); break;
     case EP_heap_calloc: hi = pick_heap(S); h = S.heaps[hi].h; split_count(S, n, &cnt, &sz); n = cnt * sz; p = mi_heap_calloc(h, cnt, sz); break;
     case EP_heap_mallocn: hi = pick_heap(S); h = S.heaps[hi].h; split_count(S, n, &cnt, &sz); n = cnt * sz; p = mi_heap_mallocn(h, cnt, sz); break;
     case EP_heap_malloc_small: hi = pick_heap(S); h = S.heaps[hi].h; if (n > MI_SMALL_SIZE_MAX) n = (size_t)below(S, MI_SMALL_SIZE_MAX + 1); p = mi_heap_malloc_small(h, n); break;
-    case EP_malloc_aligned: gen_align(S, n, &a, &o); o = 0; p = mi_malloc_aligned(n, a); break;
-    case EP_zalloc_aligned: gen_align(S, n, &a, &o); o = 0; p = mi_zalloc_aligned(n, a); break;
+    case EP_malloc_aligned: gen_align(S, n, &a, &o); o = 0; if (via_null) { S.n_alloc_via_realloc_null++; p = mi_realloc_aligned(nullptr, n, a); } else p = mi_malloc_aligned(n, a); break;
+    case EP_zalloc_aligned: gen_align(S, n, &a, &o); o = 0; if (via_null) { S.n_alloc_via_realloc_null++; p = (chance(S, 1, 2) ? mi_rezalloc_aligned(nullptr, n, a) : mi_recalloc_aligned(nullptr, 1, n, a)); } else p = mi_zalloc_aligned(n, a); break;
     case EP_calloc_aligned: gen_align(S, n, &a, &o); o = 0; split_count(S, n, &cnt, &sz); n = cnt * sz; p = mi_calloc_aligned(cnt, sz, a); break;
-    case EP_malloc_aligned_at: gen_align(S, n, &a, &o); p = mi_malloc_aligned_at(n, a, o); break;
-    case EP_zalloc_aligned_at: gen_align(S, n, &a, &o); p = mi_zalloc_aligned_at(n, a, o); break;
+    case EP_malloc_aligned_at: gen_align(S, n, &a, &o); if (via_null) { S.n_alloc_via_realloc_null++; p = mi_realloc_aligned_at(nullptr, n, a, o); } else p = mi_malloc_aligned_at(n, a, o); break;
+    case EP_zalloc_aligned_at: gen_align(S, n, &a, &o); if (via_null) { S.n_alloc_via_realloc_null++; p = mi_rezalloc_aligned_at(nullptr, n, a, o); } else p = mi_zalloc_aligned_at(n, a, o); break;
     case EP_calloc_aligned_at: gen_align(S, n, &a, &o); split_count(S, n, &cnt, &sz); n = cnt * sz; p = mi_calloc_aligned_at(cnt, sz, a, o); break;
     case EP_heap_malloc_aligned: hi = pick_heap(S); h = S.heaps[hi].h; gen_align(S, n, &a, &o); o = 0; p = mi_heap_malloc_aligned(h, n, a); break;
     case EP_heap_zalloc_aligned: hi = pick_heap(S); h = S.heaps[hi].h; gen_align(S, n, &a, &o); o = 0; p = mi_heap_zalloc_aligned(h, n, a); break;
@@ -1250,6 +1252,7 @@ void result_body(FILE* f) {
   State& S = *G;
   fprintf(f, "\"profile\":\"%s\",\"variant\":\"%s\",\"seed\":%llu,\"ops\":%llu,\"ops_done\":%llu,\"hash\":\"%016llx\",", S.cfg.profile.c_str(), S.cfg.variant.c_str(),
           (unsigned long long)S.cfg.seed, (unsigned long long)S.cfg.ops, (unsigned long long)S.op_index, (unsigned long long)S.hash);
+  fprintf(f, "\"allocs_through_realloc_of_NULL\":%llu,", (unsigned long long)S.n_alloc_via_realloc_null);
   fprintf(f, "\"allocs\":%llu,\"alloc_null\":%llu,\"frees\":%llu,\"reallocs\":%llu,\"realloc_inplace\":%llu,\"realloc_moved\":%llu,\"realloc_null\":%llu,\"realloc_mustfail\":%llu,\"expand_ok\":%llu,\"expand_null\":%llu,",
           (unsigned long long)S.n_alloc, (unsigned long long)S.n_alloc_null, (unsigned long long)S.n_free, (unsigned long long)S.n_realloc, (unsigned long long)S.n_realloc_inplace,
           (unsigned long long)S.n_realloc_moved, (unsigned long long)S.n_realloc_null, (unsigned long long)S.n_realloc_mustfail, (unsigned long long)S.n_expand_ok, (unsigned long long)S.n_expand_null);
